@@ -257,9 +257,14 @@ def check_trace(tr, ext, enter, exit_):  # pylint: disable=too-many-branches,too
         if it.opening:
             if it.out[:len(enter)] != enter:
                 out.append(F("c06_enter_script", it, "episode opens with %r, expected the enter script %r first" % (it.out, enter)))
-            elif it.kind == "g" and it.u_step is not None and it.u_step.dfil >= 0 and it.out != enter:
-                # only an entering move that itself retracts may be followed by (retraction) commands
-                out.append(F("c06_enter_script_extra", it, "episode opens with %r, expected exactly the enter script %r" % (it.out, enter)))
+            elif it.kind == "g" and it.u_step is not None and it.u_step.dfil >= 0:
+                # after the enter script nothing may follow that belongs to a script or to a deferred code, and - unless the
+                # entering move itself retracts - nothing that touches the extruder (a retraction out of nowhere)
+                for cmd in it.out[len(enter):]:
+                    r2 = gread.read(cmd) if isinstance(cmd, str) else None
+                    if cmd in enter or cmd in exit_ or (r2 is not None and (r2.code in ext or r2.has("E") or r2.code in ("G10", "G11"))):
+                        out.append(F("c06_enter_script_extra", it, "episode opens with %r: %r follows the enter script %r although the entering move does not retract" % (it.out, cmd, enter)))
+                        break
             if it.kind == "g" and it.u_step is not None and it.u_step.dfil < 0:
                 cl.add("entering_move_retracts")
             cl.add("episode")
